@@ -145,14 +145,17 @@ def reentrant(sim):
     return False
 
 
-def evaluate(model, sim):
-    """-> ("ok" | "skip:<why>" | "dis", detail)"""
+def prepare(sim):
+    """-> (verdict, detail, None) when no model run is needed, else (None, None, driver lines)"""
     if sim.xstray:
-        return "dis", {"what": "observations outside any network-level event (harness)", "impl": sim.xstray[:5]}
+        return "dis", {"what": "observations outside any network-level event (harness)", "impl": sim.xstray[:5]}, None
     lines, why = x_lines(sim)
     if lines is None:
-        return "skip:" + why, None
-    got = model("client", lines)
+        return "skip:" + why, None, None
+    return None, None, lines
+
+
+def judge(sim, got):
     det = compare(sim, got)
     if det is None:
         return "ok", None
@@ -161,7 +164,44 @@ def evaluate(model, sim):
     return "dis", det
 
 
-def run_batch(model, seed, n, focus, timeout_s=40):
+def evaluate(model, sim):
+    """-> ("ok" | "skip:<why>" | "dis", detail)"""
+    v, det, lines = prepare(sim)
+    if lines is None:
+        return v, det
+    return judge(sim, model("client", lines))
+
+
+def evaluate_many(model, sims):
+    """`evaluate` for a batch of runs with ONE driver process (every run's lines start with `x-cfg`, which resets the
+    driver's composed state; starting the process costs far more than answering one run's requests).
+    -> one (verdict, detail) per run; ("err", traceback) where the evaluation itself crashed.  If the batched call
+    fails, every run is evaluated on its own."""
+    out, asked = [None] * len(sims), []
+    try:
+        for i, sim in enumerate(sims):
+            v, det, lines = prepare(sim)
+            if lines is None:
+                out[i] = (v, det)
+            else:
+                asked.append((i, lines))
+        got = model("client", [l for _, ls in asked for l in ls]) if asked else []
+        off = 0
+        for i, ls in asked:
+            out[i] = judge(sims[i], got[off:off + len(ls)])
+            off += len(ls)
+        return out
+    except Exception:
+        out = []
+        for sim in sims:
+            try:
+                out.append(evaluate(model, sim))
+            except Exception:
+                out.append(("err", traceback.format_exc()[-1200:]))
+        return out
+
+
+def run_batch(model, seed, n, focus, timeout_s=40, batch=50):
     import time
     from harness.lib import client_scen as SC
 
@@ -169,6 +209,29 @@ def run_batch(model, seed, n, focus, timeout_s=40):
     rng = random.Random(seed)
     out = {"n": 0, "ok": 0, "skips": {}, "dis": [], "errors": [], "hist": {}}
     t0 = time.time()
+    pend = []
+
+    def flush():
+        for (scn, sim), (verdict, det) in zip(pend, evaluate_many(model, [s for _, s in pend])):
+            if verdict == "err":
+                out["errors"].append(det)
+                continue
+            out["n"] += 1
+            for x in sim.xsteps:
+                k = "x=" + x["line"].split(" ")[0]
+                out["hist"][k] = out["hist"].get(k, 0) + 1
+                for e in x["seq"]:
+                    if e[0] == "bc":
+                        kk = "bc=" + e[2].split(" ")[0]
+                        out["hist"][kk] = out["hist"].get(kk, 0) + 1
+            if verdict == "ok":
+                out["ok"] += 1
+            elif verdict.startswith("skip:"):
+                out["skips"][verdict[5:]] = out["skips"].get(verdict[5:], 0) + 1
+            elif len(out["dis"]) < 3:
+                out["dis"].append({"scenario": scn, "detail": det})
+        del pend[:]
+
     for _ in range(n):
         if time.time() - t0 > timeout_s:
             break
@@ -182,25 +245,10 @@ def run_batch(model, seed, n, focus, timeout_s=40):
                 break
             continue
         run.dispose()
-        try:
-            verdict, det = evaluate(model, run.sim)
-        except Exception:
-            out["errors"].append(traceback.format_exc()[-1200:])
-            continue
-        out["n"] += 1
-        for x in run.sim.xsteps:
-            k = "x=" + x["line"].split(" ")[0]
-            out["hist"][k] = out["hist"].get(k, 0) + 1
-            for e in x["seq"]:
-                if e[0] == "bc":
-                    kk = "bc=" + e[2].split(" ")[0]
-                    out["hist"][kk] = out["hist"].get(kk, 0) + 1
-        if verdict == "ok":
-            out["ok"] += 1
-        elif verdict.startswith("skip:"):
-            out["skips"][verdict[5:]] = out["skips"].get(verdict[5:], 0) + 1
-        elif len(out["dis"]) < 3:
-            out["dis"].append({"scenario": scn, "detail": det})
+        pend.append((scn, run.sim))
+        if len(pend) >= batch:
+            flush()
+    flush()
     return out
 
 
